@@ -134,6 +134,32 @@ fn one_case(ctx: &Ctx, case: u64, l: &mut Local) {
             }
         }
     }
+    // ---- honest key-bound presentation of a credential that came from a REUSED issuer: the same
+    // issuer instance first serves another holder (other key), then this one
+    {
+        let mut issuer = api::new_issuer(cfg.alg, 0, s.explicit_alg);
+        let other_key = (if halg == Alg::ES256 { Alg::EdDSA } else { Alg::ES256 }, 0usize);
+        let _ = pipeline::issue_with(&mut issuer, &s.u, &s.strat, Some(if r.chance(50) { other_key } else { (halg, 1) }), cfg.decoys, fmt);
+        if let Ok(second) = pipeline::issue_with(&mut issuer, &s.u, &s.strat, Some((halg, 0)), cfg.decoys, fmt) {
+            if let Outcome::Ok(mut h) = api::holder_new(&second.sd_jwt, fmt) {
+                if let Outcome::Ok(p2) = api::present(&mut h, &sel, Some(&kb)) {
+                    let v = api::verify(&p2, &resolver, Some((&kb.aud, &kb.nonce)), fmt);
+                    l.evals += 1;
+                    if v.out.is_ok() {
+                        l.count("control.reused-issuer.accepted");
+                    } else {
+                        l.violate(Violation {
+                            subcheck: "control-rejected".into(),
+                            class: format!("honest key-bound presentation of the second credential of a reused issuer ({} holder, {})", halg.name(), fmt.name()),
+                            observed: v.out.panic_signature().unwrap_or_else(|| v.out.describe()),
+                            case,
+                            detail: json!({"config": cfg.describe(), "history": api::history()}),
+                        });
+                    }
+                }
+            }
+        }
+    }
     // ---- control
     let control = api::verify(&pres, &resolver, Some((&aud, &nonce)), fmt);
     l.evals += 1;
